@@ -101,6 +101,12 @@ def step (_ : Unit) (ws : List String) : Unit × String :=
   | "call" :: rest => ((), callObs rest)
   | "after" :: rest => ((), afterObs rest)
   | "connlife" :: rest => ((), connObs rest)
+  -- after the teardown has run (tear = 4) the torrent is unlisted: found through no lookup path
+  | "listing" :: rest =>
+    let d : Del := ⟨4, [], []⟩
+    match kv rest "listed" with
+    | some l => ((), if (l == "-") == unlisted Gen.teardown d then "accept" else "reject unlisted expected")
+    | none => ((), "bad-op")
   | _ => ((), "bad-op")
 
 end Storrent.Drive.C17
